@@ -221,14 +221,13 @@ class Ctx:
     # -- pool
     def pool(self):
         if self._pool is None:
-            ctx = mp.get_context("spawn")
-            self._pool = ctx.Pool(self.nproc, initializer=_worker_init)
+            from concurrent.futures import ProcessPoolExecutor
+            self._pool = ProcessPoolExecutor(self.nproc, mp_context=mp.get_context("spawn"), initializer=_worker_init)
         return self._pool
 
     def close(self):
         if self._pool is not None:
-            self._pool.terminate()
-            self._pool.join()
+            self._pool.shutdown(wait=False, cancel_futures=True)
             self._pool = None
 
     # -- execution
@@ -244,7 +243,11 @@ class Ctx:
         specs = [(modname, funcname, c) for c in order]
         if parallel and len(specs) > 1 and self.nproc > 1:
             cs = chunksize or max(1, min(64, len(specs) // (self.nproc * 4) or 1))
-            results = self.pool().map(call_case, specs, chunksize=cs)
+            try:
+                results = list(self.pool().map(call_case, specs, chunksize=cs))
+            except Exception as e:   # a worker died (BrokenProcessPool): never hang, never call it a violation
+                self.close()
+                raise HarnessError(f"worker pool broke while running part {part!r}: {type(e).__name__}: {e}")
         else:
             _worker_init()
             results = [call_case(s) for s in specs]
